@@ -38,6 +38,13 @@ def _slice(rng_seed=12345):
             c = genck.random_case(rng, ans_weights=aw, raising_errors=True, falsy_errors=True)
             c["enabledExplicit"] = True
             cs.append(c)
+        # call-time misuse (reserved keywords / parameter names) must be rejected in every interpreter mode as well
+        from props import C19 as _C19
+        for tag, c in _C19.cases("quick", rng):
+            if tag.startswith("call_"):
+                c = dict(c)
+                c["enabledExplicit"] = True
+                cs.append(c)
         _SLICE = cs
     return _SLICE
 
